@@ -6,9 +6,11 @@
    Vocabulary: [pr tbl 0 e] prints a source tree with the parentheses the table [tbl] requires plus
    every explicit [Par]; [strip] erases [Par]; [wf] = built from the documented operators with
    assignment targets the parser accepts; [folb tbl 0 rest] = [rest] starts with a token that can
-   follow a complete expression; [safeb false ts] = the stream trips neither look-ahead of
-   parsePrimary (`( ident-shaped )` taken for a cast, `ident < ... > (` taken for a generic call);
-   it is a computable predicate and the generator's avoidance of findings #36 / #37. *)
+   follow a complete expression; [safeb ts] = no `identifier <` of the stream trips the generic-call
+   look-ahead of parsePrimary (`ident < type-argument-like tokens > (`, the still open part of finding
+   C02-generic-lookahead); computable, implied by [no_gt_lp] (no `>` directly before `(`).  Since the
+   fixes 4d0a4b7 / 9bd33cd / 34a2124 the ladder is the documented table, the look-ahead stops at
+   ; ( ) { } = + - && || and a parenthesised identifier is never a cast. *)
 From Coq Require Import List Arith Bool NArith ZArith String.
 From Cb Require Import C02.Model C02.Roundtrip C02.Theorems C02.Gen_LadderTable C02.Tables.
 Import ListNotations.
@@ -18,7 +20,7 @@ Import ListNotations.
    parsing the printed stream returns the tree without its parentheses and leaves the context. *)
 Theorem roundtrip_general : forall tbl e rest,
   table_total tbl = true -> wf e = true -> folb tbl 0 rest = true ->
-  safeb false (pr tbl 0 e ++ rest) = true ->
+  safeb (pr tbl 0 e ++ rest) = true ->
   exists fuel, p_assign tbl fuel (pr tbl 0 e ++ rest) = Ok (strip e, rest).
 Proof. exact roundtrip_general_l. Qed.
 Print Assumptions roundtrip_general.
@@ -26,7 +28,7 @@ Print Assumptions roundtrip_general.
 (* minimal parentheses: a tree without explicit parentheses comes back unchanged *)
 Theorem roundtrip_min : forall tbl e rest,
   table_total tbl = true -> wf e = true -> nopar e = true -> folb tbl 0 rest = true ->
-  safeb false (pr tbl 0 e ++ rest) = true ->
+  safeb (pr tbl 0 e ++ rest) = true ->
   exists fuel, p_assign tbl fuel (pr tbl 0 e ++ rest) = Ok (e, rest).
 Proof. exact roundtrip_min_l. Qed.
 Print Assumptions roundtrip_min.
@@ -35,7 +37,7 @@ Print Assumptions roundtrip_min.
    same tree *)
 Theorem roundtrip_full : forall tbl e rest,
   table_total tbl = true -> wf e = true -> folb tbl 0 rest = true ->
-  safeb false (pr tbl 0 (full e) ++ rest) = true ->
+  safeb (pr tbl 0 (full e) ++ rest) = true ->
   exists fuel, p_assign tbl fuel (pr tbl 0 (full e) ++ rest) = Ok (strip e, rest).
 Proof. exact roundtrip_full_l. Qed.
 Print Assumptions roundtrip_full.
@@ -48,7 +50,7 @@ Print Assumptions full_is_fully_parenthesised.
 Theorem redundant_parens : forall tbl e e' rest,
   table_total tbl = true -> wf e = true -> wf e' = true -> strip e = strip e' ->
   folb tbl 0 rest = true ->
-  safeb false (pr tbl 0 e ++ rest) = true -> safeb false (pr tbl 0 e' ++ rest) = true ->
+  safeb (pr tbl 0 e ++ rest) = true -> safeb (pr tbl 0 e' ++ rest) = true ->
   exists fuel, p_assign tbl fuel (pr tbl 0 e ++ rest) = Ok (strip e, rest) /\
                p_assign tbl fuel (pr tbl 0 e' ++ rest) = Ok (strip e, rest).
 Proof. exact redundant_parens_l. Qed.
@@ -58,18 +60,29 @@ Print Assumptions redundant_parens.
 Theorem parens_irrelevant_eval : forall tbl e e' rest env f f' x x' r r',
   table_total tbl = true -> wf e = true -> wf e' = true -> strip e = strip e' ->
   folb tbl 0 rest = true ->
-  safeb false (pr tbl 0 e ++ rest) = true -> safeb false (pr tbl 0 e' ++ rest) = true ->
+  safeb (pr tbl 0 e ++ rest) = true -> safeb (pr tbl 0 e' ++ rest) = true ->
   p_assign tbl f (pr tbl 0 e ++ rest) = Ok (x, r) -> p_assign tbl f' (pr tbl 0 e' ++ rest) = Ok (x', r') ->
   x = x' /\ r = r' /\ eval env x = eval env e /\ eval env x' = eval env e.
 Proof. exact parens_irrelevant_eval_l. Qed.
 Print Assumptions parens_irrelevant_eval.
+
+(* the same at full strength with a purely syntactic side condition: in neither text a `>` stands
+   directly before a `(` (parenthesised identifiers, elements, anything else are fine since 34a2124) *)
+Theorem redundant_parens_syntactic : forall tbl e e' rest,
+  table_total tbl = true -> wf e = true -> wf e' = true -> strip e = strip e' ->
+  folb tbl 0 rest = true ->
+  no_gt_lp (pr tbl 0 e ++ rest) = true -> no_gt_lp (pr tbl 0 e' ++ rest) = true ->
+  exists fuel, p_assign tbl fuel (pr tbl 0 e ++ rest) = Ok (strip e, rest) /\
+               p_assign tbl fuel (pr tbl 0 e' ++ rest) = Ok (strip e, rest).
+Proof. exact redundant_parens_syntactic_l. Qed.
+Print Assumptions redundant_parens_syntactic.
 
 (* fuel is only recursion depth: with ANY fuel the answer is that tree or an explicit out-of-fuel
    report - never another tree and never a parse error (the driver doubles the fuel until the answer is
    not out-of-fuel; [roundtrip_general] says such a fuel exists) *)
 Theorem roundtrip_any_fuel : forall tbl e rest,
   table_total tbl = true -> wf e = true -> folb tbl 0 rest = true ->
-  safeb false (pr tbl 0 e ++ rest) = true ->
+  safeb (pr tbl 0 e ++ rest) = true ->
   forall g, p_assign tbl g (pr tbl 0 e ++ rest) = Ok (strip e, rest) \/
             p_assign tbl g (pr tbl 0 e ++ rest) = Fuel.
 Proof. exact roundtrip_any_fuel_l. Qed.
@@ -79,7 +92,7 @@ Print Assumptions roundtrip_any_fuel.
    fuel the driver tries) *)
 Theorem enough_fuel_partial : forall tbl e rest,
   table_total tbl = true -> wf e = true -> folb tbl 0 rest = true ->
-  safeb false (pr tbl 0 e ++ rest) = true ->
+  safeb (pr tbl 0 e ++ rest) = true ->
   parse tbl (pr tbl 0 e ++ rest) = Ok (strip e, rest) \/ parse tbl (pr tbl 0 e ++ rest) = Fuel.
 Proof. exact roundtrip_parse_l. Qed.
 Print Assumptions enough_fuel_partial.
@@ -132,88 +145,95 @@ Theorem postfix_binds_tighter_than_unary : forall tbl, table_total tbl = true ->
 Proof. exact postfix_binds_tighter_than_unary_l. Qed.
 Print Assumptions postfix_binds_tighter_than_unary.
 
-(* the generator's syntactic avoidance implies the generic look-ahead never fires *)
-Theorem no_gt_before_lparen_is_generic_safe : forall ts, no_gt_lp ts = true -> forall d, generic_scan d ts = false.
-Proof. exact no_gt_lp_generic_safe_l. Qed.
-Print Assumptions no_gt_before_lparen_is_generic_safe.
+(* no `>` directly before `(` implies the generic look-ahead never fires and the stream is safe *)
+Theorem no_gt_before_lparen_is_safe : forall ts, no_gt_lp ts = true ->
+  safeb ts = true /\ forall d, generic_scan d ts = false.
+Proof. intros ts H. split; [exact (no_gt_lp_safe_l ts H)|exact (no_gt_lp_generic_safe_l ts H)]. Qed.
+Print Assumptions no_gt_before_lparen_is_safe.
 
 (* ---- the table of the code.  ladder_table, ladder_shape, ... are GENERATED from expression_parser.cpp /
-   recursive_parser.cpp on every run; the next obligations are closed by conversion against them, so a
-   change of any `while` token set or call structure breaks the obligation that names it. *)
-(* the generated table is the table the model is pinned to, and it is total: every theorem above
-   applies to it *)
-Theorem ladder_is_pinned : ladder_table = pinned_table /\ table_total ladder_table = true.
-Proof. exact (conj (eq_refl pinned_table) pinned_total_l). Qed.
-Print Assumptions ladder_is_pinned.
+   recursive_parser.cpp / primary_expression_parser.cpp on every run; the next obligations are closed by
+   conversion against them, so a change of any `while` token set, call structure or look-ahead guard
+   breaks the obligation that names it. *)
+(* the generated table IS the documented table (docs/spec.md:309, docs/BNF.md:407), and it is total:
+   every theorem above applies to it *)
+Theorem ladder_is_spec : ladder_table = spec_table /\ table_total ladder_table = true.
+Proof. exact (conj (eq_refl spec_table) spec_total_l). Qed.
+Print Assumptions ladder_is_spec.
 
 (* the functions around the table have the shape Model.v assumes: every level a left-associative
    `while` loop (right operand parsed by the same callee as the left one), one chain from
    parseTernary's condition callee down to parseUnary; ?: parses both branches with parseTernary;
    assignment is parseTernary [op parseAssignment]; prefix operators recurse into parseUnary, ++/--
-   and the fall-through use parsePostfix *)
+   and the fall-through use parsePostfix; the generic look-ahead gives up at ; ( ) { } = + - && ||;
+   `( identifier` is tried as a type only for a type name *)
 Theorem ladder_structure_is_modelled :
   structure_ok ladder_shape ladder_ternary ladder_entry ladder_assign ladder_unary_prefix
-               ladder_unary_calls ladder_table = true.
+               ladder_unary_calls ladder_generic_stops ladder_cast_guard ladder_table = true.
 Proof. exact (eq_refl true). Qed.
 Print Assumptions ladder_structure_is_modelled.
 
-(* the documented table is total too; once the ladder equals it, printing by the DOCUMENTED table
-   round-trips through the code's ladder *)
-Theorem conforms_if_ladder_is_spec : table_total spec_table = true /\
-  (ladder_table = spec_table ->
-   forall e rest, wf e = true -> folb spec_table 0 rest = true ->
-   safeb false (pr spec_table 0 e ++ rest) = true ->
-   exists fuel, p_assign ladder_table fuel (pr spec_table 0 e ++ rest) = Ok (strip e, rest)).
-Proof. exact (conj spec_total_l (conforms_if_is_spec_l ladder_table)). Qed.
-Print Assumptions conforms_if_ladder_is_spec.
+(* printing by the DOCUMENTED table round-trips through the code's ladder: every expression groups
+   as the specification table says *)
+Theorem ladder_conforms_to_spec : forall e rest,
+  wf e = true -> folb spec_table 0 rest = true -> safeb (pr spec_table 0 e ++ rest) = true ->
+  exists fuel, p_assign ladder_table fuel (pr spec_table 0 e ++ rest) = Ok (strip e, rest).
+Proof. exact conforms_l. Qed.
+Print Assumptions ladder_conforms_to_spec.
 
-(* REFUTED on the pinned tree (known finding C02-eq-rel-same-level): == != share the level of
-   < <= > >= *)
-Theorem ladder_is_spec_refuted : ladder_table <> spec_table.
-Proof. exact pinned_is_not_spec_l. Qed.
-Print Assumptions ladder_is_spec_refuted.
+(* former finding C02-eq-rel-same-level (fixed by 4d0a4b7): == != bind looser than < <= > >= on either
+   side; the former witness 3 == 3 > 0 is 3 == (3 > 0) = 0 (the ladder before the fix gave (3 == 3) > 0) *)
+Theorem spec_grouping : forall oe orl x y z, is_eq oe = true -> is_rel orl = true ->
+  (exists fuel, p_assign ladder_table fuel [TId x; TOp oe; TId y; TOp orl; TId z] =
+                Ok (Bin oe (Var x) (Bin orl (Var y) (Var z)), [])) /\
+  (exists fuel, p_assign ladder_table fuel [TId x; TOp orl; TId y; TOp oe; TId z] =
+                Ok (Bin oe (Bin orl (Var x) (Var y)) (Var z), [])).
+Proof. exact spec_grouping_l. Qed.
+Print Assumptions spec_grouping.
 
-(* ... and that is the ONLY deviation: every other pair of operators is ordered as documented *)
-Theorem tables_differ_only_eq_rel : forall o1 o2,
-  Nat.compare (lvl pinned_table o1) (lvl pinned_table o2) = Nat.compare (lvl spec_table o1) (lvl spec_table o2)
-  \/ (is_eq o1 = true /\ is_rel o2 = true) \/ (is_rel o1 = true /\ is_eq o2 = true).
-Proof. exact tables_differ_only_eq_rel_l. Qed.
-Print Assumptions tables_differ_only_eq_rel.
+Theorem spec_grouping_witness :
+  parse ladder_table [TNum 3; TOp EqO; TNum 3; TOp GtO; TNum 0] =
+    Ok (Bin EqO (Num 3) (Bin GtO (Num 3) (Num 0)), []) /\
+  eval (fun _ => 0%Z) (Bin EqO (Num 3) (Bin GtO (Num 3) (Num 0))) = Some 0%Z /\
+  parse old_table [TNum 3; TOp EqO; TNum 3; TOp GtO; TNum 0] =
+    Ok (Bin GtO (Bin EqO (Num 3) (Num 3)) (Num 0), []).
+Proof. exact spec_witness_l. Qed.
+Print Assumptions spec_grouping_witness.
 
-(* the witness: 3 == 3 > 0 is 0 by the documented grouping, the ladder computes 1 *)
-Theorem spec_grouping_refuted :
-  exists e, wf e = true /\ nopar e = true /\
-    pr spec_table 0 e = [TNum 3; TOp EqO; TNum 3; TOp GtO; TNum 0] /\
-    exists e', parse ladder_table (pr spec_table 0 e) = Ok (e', []) /\ e' <> e /\
-      eval (fun _ => 0%Z) e = Some 0%Z /\ eval (fun _ => 0%Z) e' = Some 1%Z.
-Proof. exact spec_grouping_refuted_l. Qed.
-Print Assumptions spec_grouping_refuted.
+(* former finding C02-paren-ident-cast (fixed by 34a2124): the former witnesses (a) - 1, (a[1]) - 1 and
+   ((a) * 2) parse as the expressions they are (the general law is [redundant_parens]) *)
+Theorem paren_identifier_is_not_a_cast :
+  parse pinned_table (pr pinned_table 0 (Bin Sub (Par (Var 0)) (Num 1))) = Ok (Bin Sub (Var 0) (Num 1), []) /\
+  pr pinned_table 0 (Bin Sub (Par (Var 0)) (Num 1)) = [TLP; TId 0; TRP; TOp Sub; TNum 1] /\
+  parse pinned_table [TLP; TId 0; TLB; TNum 1; TRB; TRP; TOp Sub; TNum 1] =
+    Ok (Bin Sub (Idx (Var 0) (Num 1)) (Num 1), []) /\
+  parse pinned_table [TLP; TLP; TId 0; TRP; TOp Mul; TNum 2; TRP] = Ok (Bin Mul (Var 0) (Num 2), []).
+Proof. exact paren_identifier_l. Qed.
+Print Assumptions paren_identifier_is_not_a_cast.
 
-(* REFUTED without the [safeb] hypothesis (known finding C02-paren-ident-cast, DESIGN #36):
-   (a) - 1 parses as the cast (a)(-1) *)
-Theorem redundant_parens_refuted :
-  exists e e', wf e = true /\ wf e' = true /\ strip e = strip e' /\
-    pr pinned_table 0 e' = [TLP; TId 0; TRP; TOp Sub; TNum 1] /\
-    parse pinned_table (pr pinned_table 0 e) = Ok (strip e, []) /\
-    parse pinned_table (pr pinned_table 0 e') = Ok (Cast [TId 0] (Un Neg (Num 1)), []) /\
-    safeb false (pr pinned_table 0 e') = false.
-Proof. exact redundant_parens_refuted_l. Qed.
-Print Assumptions redundant_parens_refuted.
+(* C02-generic-lookahead after 9bd33cd: the look-ahead gives up at + and at a statement boundary ... *)
+Theorem generic_lookahead_is_bounded :
+  parse pinned_table [TId 0; TOp LtO; TId 1; TOp Add; TNum 1; TOp GtO; TLP; TId 2; TRP] =
+    Ok (Bin GtO (Bin LtO (Var 0) (Bin Add (Var 1) (Num 1))) (Var 2), []) /\
+  generic_scan 1 [TId 1; TRP; TSemi; TOther; TLP; TId 1; TOp GtO; TLP; TId 0; TRP] = false.
+Proof. exact generic_lookahead_bounded_l. Qed.
+Print Assumptions generic_lookahead_is_bounded.
 
-(* REFUTED without the [safeb] hypothesis (known finding C02-generic-lookahead, DESIGN #37):
-   a < b > (c & d), printed with minimal parentheses, parses as the generic call a<b>(c & d) *)
+(* ... but REFUTED without the [safeb] hypothesis (known finding C02-generic-lookahead, what is left of
+   DESIGN #37): a < b > (c & d), printed with minimal parentheses, still parses as the generic call
+   a<b>(c & d) - nothing at parse time tells a generic function name from a variable *)
 Theorem roundtrip_min_refuted_generic :
   exists e, wf e = true /\ nopar e = true /\
     pr pinned_table 0 e = [TId 0; TOp LtO; TId 1; TOp GtO; TLP; TId 2; TOp BAnd; TId 3; TRP] /\
     parse pinned_table (pr pinned_table 0 e) = Ok (Generic 1 (Call 0 [Bin BAnd (Var 2) (Var 3)]), []) /\
-    safeb false (pr pinned_table 0 e) = false.
+    safeb (pr pinned_table 0 e) = false.
 Proof. exact roundtrip_min_refuted_generic_l. Qed.
 Print Assumptions roundtrip_min_refuted_generic.
 
 (* the hypotheses are satisfiable and [enough_fuel] suffices on a stream using every construct *)
 Example sample_roundtrip :
   wf sample = true /\ folb pinned_table 0 [TRP; TSemi] = true /\
-  safeb false (pr pinned_table 0 sample ++ [TRP; TSemi]) = true /\
+  safeb (pr pinned_table 0 sample ++ [TRP; TSemi]) = true /\
   parse pinned_table (pr pinned_table 0 sample ++ [TRP; TSemi]) = Ok (strip sample, [TRP; TSemi]) /\
   parse pinned_table (pr pinned_table 0 (full sample) ++ [TRP; TSemi]) = Ok (strip sample, [TRP; TSemi]).
 Proof. exact sample_roundtrip_l. Qed.
